@@ -119,6 +119,9 @@ void HARNESS(void)
 #ifdef FIX_SIZE
   in_size = FIX_SIZE;
 #endif
+#ifdef FIX_CUR       /* one job per buffered length: constant buffer offsets keep the copy loops' array indices concrete */
+  D_curlen(&in_d) = FIX_CUR;
+#endif
   __CPROVER_assume(D_curlen(&in_d) < BLOCK && in_size <= SMAX && D_len(&in_d) < (1ull << 60));
   uint64_t total = D_curlen(&in_d) + (uint64_t)in_size;
   __CPROVER_assume(in_off < total && in_tj < BLOCK);
